@@ -890,8 +890,10 @@ var errHandlerGone = errors.New("the connection handler ended without sending th
 func (c *cli) recv(n int, handlerWrites bool) ([]byte, error) {
 	buf := make([]byte, n)
 	got := 0
-	dl := time.Now().Add(readBound)
+	start := time.Now()
+	dl := start.Add(readBound)
 	gone := false
+	seen := false // a handler goroutine was observed while we waited
 	for got < n {
 		c.conn.SetReadDeadline(time.Now().Add(20 * time.Millisecond))
 		m, err := c.conn.Read(buf[got:])
@@ -905,8 +907,16 @@ func (c *cli) recv(n int, handlerWrites bool) ([]byte, error) {
 				if gone {
 					return buf[:got], errHandlerGone
 				}
-				if handlerWrites && count().handlers == 0 {
-					gone = true // one more round: bytes written just before the goroutine ended are already in our queue
+				if handlerWrites {
+					// "no handler goroutine" means "ended" only if one was there, or if the accept loop
+					// has had ample time to start it: on a loaded machine the connection can sit in the
+					// accept queue for a while before its handler exists (false alarm seen once in a
+					// thorough run at load 107: greeting "answered with nothing" 40 ms after connect)
+					if h := count().handlers; h > 0 {
+						seen = true
+					} else if (seen && time.Since(start) > 500*time.Millisecond) || time.Since(start) > 5*time.Second {
+						gone = true // one more round: bytes written just before the goroutine ended are already in our queue
+					}
 				}
 				if time.Now().After(dl) {
 					return buf[:got], fmt.Errorf("timeout after %v", readBound)
